@@ -145,3 +145,12 @@ fn format_extraction<TCompilationProfile: CompilationProfile>(
 fn push_indented_line_break(output: &mut String, indent: usize) {
     output.push_str(&format!("\n{}", "  ".repeat(indent)));
 }
+
+/// Visibility-only hook for /verif.
+#[cfg(isographlabs_isograph_verif)]
+pub(crate) fn verif_get_range_of_extraction(
+    extraction: &IsoLiteralExtraction,
+    content: &str,
+) -> Range {
+    get_range_of_extraction(extraction, content)
+}
